@@ -1,8 +1,41 @@
 /-
-C01 / C08 / C13 / C03 for the COMPOSED TLS model (`TLX/Pipeline.lean`): session state machine ∘ record layer, and the
-whole per-connection pipeline reassembly → session → `OutputBuilder`.
+C01 (with C03 / C08 / C13 by-products) for the COMPOSED TLS model `TLX/Pipeline.lean`: session state machine ∘ record
+layer, and the whole per-connection pipeline reassembly → session → `OutputBuilder` (`Pipeline.connOut`). The composed
+model is tied to the real tool by the whole-program correspondence run; the component theorems used here are
+`Props/C01` (record layer vs. the RFC sender `Spec/TlsSender`), `Lemmas/Session` + `Props/C03, C07Session, C08Session,
+C13Session` (session, generic in the decryptor), `Props/C06, C08, C13` (builder), `Lemmas/Metadata` (carriers).
 
-WORK IN PROGRESS HEADER (rewritten at the end)
+A. Session ∘ RecordLayer (`Pipeline.ops`: decrypt = `TlsRecord` + `Decryptor.decrypt`, updateKeys = `update_keys`)
+   `session_exact`               any class, any history of application records and (TLS 1.3) protected handshake records
+                                 of whole messages, any direction order: exactly one traffic entry per application record
+                                 (plaintext, direction, record, app tag), in order; nothing for handshake records; each
+                                 Finished switches that direction's epoch in step with the sender; relation re-established
+   `app_phase_exact`             the same for a plain `List Ev` of application-data `send` events (`Spec.TlsSender.run`)
+   `app_phase_exact_legacy`      A1: SSL 3.0 – TLS 1.2, hypotheses spelled out
+   `app_phase_exact_13`          A2: TLS 1.3, any padding, content type and padding stripped
+   `handshake13_exports_nothing` A2: protected handshake records export nothing (with and without `-a`)
+   `tls13_after_finished_exact`  A2: server flight, client flight (one Finished each) ⇒ application epoch, then exact
+   `app_export_exact`            A3: … ∘ `OutputBuilder.build`: a well-formed conversation whose two payload streams are
+                                 the concatenations of the sender's plaintexts per direction
+B. Connection level, for EVERY primitives, key log, packet list (no hypotheses)
+   `connOut_eq`                  `Session.decrypt()` = reassembly → ONE `Session.run` from the initial state → build
+   `connOut_never_raises`        B3 (C03): session part never raises; every released record has a carrier; `connOut ≠ none`
+   `connOut_none_iff_build_none`
+   `connOut_meta_only_adds`      B1 (C13): data packets without `-a` are a subsequence of those with `-a`
+   `connOut_take_prefix`         B2 (C08): export of the first n packets is a frame-by-frame prefix
+C. Handshake
+   `server_hello_installs`       RFC-encoded ClientHello / ServerHello records ⇒ negotiated version, client random, and
+                                 `can_decrypt` / decryptor exactly as `Pipeline.genKeys` answers
+   `genKeys_installs_rel_legacy`, `genKeys_installs_rel_13`
+                                 suite resolves + key-log line + key schedule result ⇒ decryptor installed and RELATED to
+                                 the sender initialised with the same keys (so A applies from the first protected record)
+Hypotheses that are genuinely needed: those of `Props/C01` (sequence numbers below 2^64, TLS 1.2 AEAD plaintext < 2^16,
+MAC length > 0, 2-byte record version); handshake messages shorter than 2^24 (uint24 length) and not split across
+records (`hs13Loop` restarts at offset 0 in every record). Not covered: TLS 1.3 KeyUpdate, inner content types other
+than 22 / 23, the TLS ≤ 1.2 Finished records under ChangeCipherSpec (`handshakeFinished`; they advance the cipher state
+before the first application record — for those versions A starts from a state that is related AFTER them).
+Definitions used in the statements (`Ready`, `SEv`, `wireRecs`, `toRec`, `plainOf`, `released`, `Negotiated`, …) and the
+helper lemmas are in `TLX/Lemmas/Pipeline.lean`.
 -/
 import TLX.Lemmas.Pipeline
 set_option linter.unusedSimpArgs false
@@ -543,3 +576,119 @@ theorem genKeys_installs_rel_13 (H : Crypto.Prims) (P : Prims) (kl : List Keylog
     if_false]
 
 end TLX.Props.C01Pipeline
+
+-- ====================================================================== non-vacuity, B and C: one connection end to end
+namespace TLX.Props.C01Pipeline.Ex2
+open TLX TLX.Spec.TlsHello TLX.Spec.TlsSender TLX.Lemmas.Pipeline TLX.Props.C01.Ex
+
+/-- toy hashes with the real digest sizes (so that key blocks have the lengths the suites need) -/
+def hashes : Crypto.Prims := ⟨Crypto.toy 16, Crypto.toy 20, Crypto.toy 32, Crypto.toy 48⟩
+
+def cr0 : Bytes := List.replicate 32 7
+def sr0 : Bytes := List.replicate 32 9
+/-- a TLS 1.2 hello pair: TLS_RSA_WITH_AES_128_GCM_SHA256, a session id, renegotiation_info -/
+def ch0 : ClientHello := ⟨[3, 3], cr0, [], [[0, 0x9c]], [0], none⟩
+def sh12 : ServerHello := ⟨[3, 3], sr0, [1, 2, 3], [0x00, 0x9c], 0, some [⟨0xff01, [0]⟩]⟩
+/-- a TLS 1.3 ServerHello: TLS_AES_128_GCM_SHA256, supported_versions = 0x0304, key_share -/
+def sh13 : ServerHello := ⟨[3, 3], sr0, [], [0x13, 0x01], 0, some [⟨43, [3, 4]⟩, ⟨51, [0, 29, 0, 1, 5]⟩]⟩
+/-- `CLIENT_RANDOM <client random> <48-byte master secret>` -/
+def kl0 : List Keylog.Key :=
+  [⟨Keylog.s_CLIENT_RANDOM, Keylog.hexOf (Pipeline.natsOfBytes cr0), Keylog.hexOf (List.replicate 48 5)⟩]
+
+-- hypotheses of `server_hello_installs`
+example : ch0.WellFormed ∧ sh12.WellFormed ∧ sh13.WellFormed := by decide
+example : Negotiated [3, 3] sh12 .tls12 := by unfold Negotiated; decide
+example : Negotiated [3, 3] sh13 .tls13 := by unfold Negotiated; decide
+example : Negotiated [3, 1] { sh12 with legacyVersion := [3, 1], extensions := none } .tls10 := by unfold Negotiated; decide
+
+def gk := Pipeline.genKeys hashes Cipher.Toy.prims kl0 (some .tls12) [0, 0x9c] cr0 sr0
+  ((sh12.extensions.getD []).map extPair) 0
+
+/-- the hypotheses of `genKeys_installs_rel_legacy` hold together for this suite / key log / version -/
+def legacyHyps : Bool :=
+  match CipherSuite.resolve 0x9c with
+  | some ps =>
+    match Pipeline.suiteArgs ps with
+    | some a =>
+      match (Keylog.findSessionSecrets kl0 (Pipeline.natsOfBytes cr0)).filter
+          (fun k => k.label == Keylog.s_CLIENT_RANDOM || k.label == Keylog.s_RSA) with
+      | f :: fs =>
+        match Pipeline.secretsOf false (f :: fs) with
+        | some secrets =>
+          match KeySchedule.generateKeys hashes .tls12 a.ks secrets cr0 sr0 with
+          | .ok (some (.legacy k)) =>
+            decide (Props.C01.classOf a.bulk .tls12 false a.tagLen = some (.aead12 .aesgcm 16)) &&
+            decide (0 < (KeySchedule.macSuite hashes a.ks.mac).outLen) &&
+            decide (Props.C01.KeyMatOk (.aead12 .aesgcm 16) k.clientKey k.clientIv) &&
+            decide (Props.C01.KeyMatOk (.aead12 .aesgcm 16) k.serverKey k.serverIv)
+          | _ => false
+        | none => false
+      | [] => false
+    | none => false
+  | none => false
+example : legacyHyps = true := by decide +kernel
+
+/-- the RFC sender holding the keys `generate_keys` installed, sending three application records -/
+def wire12 : List Wire :=
+  match gk with
+  | .installed d =>
+    run Cipher.Toy.prims Cipher.Toy.laws (.aead12 .aesgcm 16) [3, 3]
+      ⟨SDir.init (d.c.key.getD []) (d.c.iv.getD []) [] [], SDir.init (d.s.key.getD []) (d.s.iv.getD []) [] []⟩
+      [.send false 23 hi ⟨iv8, [], [], 0⟩, .send true 23 k16 ⟨iv8, [], [], 0⟩, .send false 23 [] ⟨iv8, [], [], 0⟩]
+  | _ => []
+
+def rawOf : Wire → Bytes
+  | .record _ raw => raw
+  | .switch _ => []
+
+def cEp : MainLoop.Endpoint := ⟨[10, 0, 0, 1], 5555⟩
+def sEp : MainLoop.Endpoint := ⟨[10, 0, 0, 2], 443⟩
+def mkPkt (srv : Bool) (payload : Bytes) (tag : Nat) : MainLoop.Pkt :=
+  if srv then ⟨.tcp, sEp, cEp, payload, true, tag⟩ else ⟨.tcp, cEp, sEp, payload, true, tag⟩
+
+/-- ClientHello, ServerHello, a client record split over two packets that arrive swapped, a server record, an empty
+    client record -/
+def pkts0 : List MainLoop.Pkt :=
+  let chR := hsRecord [3, 1] (encodeClientHello ch0)
+  let shR := hsRecord [3, 3] (encodeServerHello sh12)
+  let a := rawOf (wire12.getD 0 (.switch false))
+  let b := rawOf (wire12.getD 1 (.switch false))
+  let c := rawOf (wire12.getD 2 (.switch false))
+  [mkPkt false chR 0, mkPkt true shR 1, mkPkt false (a.drop 7) 3, mkPkt false (a.take 7) 2, mkPkt true b 4,
+   mkPkt false c 5]
+
+/-- sequence numbers: the offset of the packet in its direction's stream; the client's stream wraps at 2^32 -/
+def seqOf (tag : Nat) : Nat :=
+  let chL := (hsRecord [3, 1] (encodeClientHello ch0)).length
+  let shL := (hsRecord [3, 3] (encodeServerHello sh12)).length
+  let aL := (rawOf (wire12.getD 0 (.switch false))).length
+  match tag with
+  | 0 => 4294967290
+  | 1 => 77
+  | 2 => (4294967290 + chL) % 4294967296
+  | 3 => (4294967290 + chL + 7) % 4294967296
+  | 4 => 77 + shL
+  | _ => (4294967290 + chL + aL) % 4294967296
+
+def info0 (tag : Nat) : Pipeline.Info := ⟨seqOf tag, 1000 + tag, [1], [2], false⟩
+def conn0 : Pipeline.Conn := ⟨⟨[443], false, false, false, true, []⟩, sEp, cEp, [2], [1], false, pkts0⟩
+
+/-- (capture time, payload) of the exported data segments -/
+def view (o : Option (List Pipeline.OutPkt)) : Option (List (Nat × Bytes)) :=
+  o.map fun fs => (dataPkts fs).map fun p => (p.1, p.2.2.2.2.2.2)
+
+-- without `-a`: exactly the sender's plaintexts, each at the time of its carrier packets, nothing of the hellos
+example : view (Pipeline.connOut hashes Cipher.Toy.prims info0 (setMeta conn0 false) kl0)
+    = some [(1002, [104]), (1003, [105]), (1004, k16)] := by decide +kernel
+-- with `-a`: the two hello records verbatim in addition (B1: the former is a subsequence of this)
+example : view (Pipeline.connOut hashes Cipher.Toy.prims info0 (setMeta conn0 true) kl0)
+    = some [(1000, hsRecord [3, 1] (encodeClientHello ch0)), (1001, hsRecord [3, 3] (encodeServerHello sh12)),
+            (1002, [104]), (1003, [105]), (1004, k16)] := by decide +kernel
+-- cut after four packets (B2): a prefix
+example : view (Pipeline.connOut hashes Cipher.Toy.prims info0 { setMeta conn0 true with pkts := pkts0.take 4 } kl0)
+    = some [(1000, hsRecord [3, 1] (encodeClientHello ch0)), (1001, hsRecord [3, 3] (encodeServerHello sh12)),
+            (1002, [104]), (1003, [105])] := by decide +kernel
+-- without the key log line: nothing but (with `-a`) the hellos
+example : view (Pipeline.connOut hashes Cipher.Toy.prims info0 (setMeta conn0 false) []) = some [] := by decide +kernel
+
+end TLX.Props.C01Pipeline.Ex2
